@@ -1,6 +1,6 @@
 (** C15 — strongly connected components are computed exactly by all four algorithms.
     Statements and [Print Assumptions] only. *)
-From WG Require Import Base.Prelude Algo.Scc Algo.SccStatements Algo.SccFacts.
+From WG Require Import Base.Prelude Algo.Scc Algo.SccStatements Algo.SccFacts Algo.SccOrder.
 Local Open Scope nat_scope.
 
 (** the executable closure used by the checker computes reachability *)
@@ -43,6 +43,18 @@ Print Assumptions C15_symm_par.
 Theorem C15_kosaraju_phase2 : S_kosaraju_phase2.
 Proof. exact kosaraju_phase2. Qed.
 Print Assumptions C15_kosaraju_phase2.
+
+(** [top_sort] (nodes by decreasing postvisit time of the depth-first visit) contains every
+    node and has the finishing-order property *)
+Theorem C15_top_sort_finish_ordered : S_top_sort_finish_ordered.
+Proof. exact top_sort_finish_ordered. Qed.
+Print Assumptions C15_top_sort_finish_ordered.
+
+(** Kosaraju: for every graph and every transpose of it, the output is the SCC partition
+    with dense indices *)
+Theorem C15_kosaraju : S_kosaraju.
+Proof. exact kosaraju_correct. Qed.
+Print Assumptions C15_kosaraju.
 
 (** the executable finishing-order test (evaluated by the driver on [top_sort g]) is sound *)
 Theorem C15_finish_orderedb_sound : S_finish_orderedb_sound.
